@@ -76,7 +76,14 @@ type Fault struct {
 	// asked for — an error that arrives from rows.Next, not from the query call (a lock wait timeout, a lost
 	// connection in the middle of a result)
 	AtRow int
+	// Panic: the statement does not return, it panics (a stand-in for a panic anywhere under the proxy's
+	// statement call: an executor, a hook)
+	Panic bool
 }
+
+type panicFault struct{}
+
+func (*panicFault) Error() string { return "panic" }
 
 type rowFault struct {
 	at  int
@@ -623,7 +630,9 @@ func (e *Engine) matchFault(s *session, kind, tbl string) error {
 		}
 		e.fired++
 		out = f.Err
-		if f.Delay > 0 {
+		if f.Panic {
+			out = &panicFault{}
+		} else if f.Delay > 0 {
 			out = &delayFault{f.Delay}
 		} else if out == nil {
 			out = &mysql.MySQLError{Number: 1105, Message: "injected fault"}
